@@ -39,6 +39,9 @@ def obligations(tier):
     obls.append(CH("factory_unchanged_by_failed_construction", H, "factory_after_failure", t, mode="E1s", functions=["stix2.environment.ObjectFactory.create"] + F[:1],
                    bounds="every junk value as external_references / object_marking_refs / created_by_ref through an ObjectFactory and an Environment whose defaults are lists: "
                           "family error or success, and the next valid construction equals the one before"))
+    obls.append(CH("plain_python_subclasses", H, "plain_subclass", t, mode="E1s", functions=F + ["stix2.v21.sro.Relationship._check_object_constraints", "stix2.v21.sro.Sighting._check_object_constraints"],
+                   bounds="an empty Python subclass of every buildable registered class (both versions): builds from the base's arguments to the same text, and with each of 41 junk values "
+                          "in one argument raises only from the family (no RecursionError from super() through self.__class__)"))
     if tier == "thorough":
         for p in range(8):
             obls.append(CH("two_corruptions_p%d" % p, H, "table_junk_pairs", t * 2, mode="E1s", functions=F, env={"VERIF_PART": str(p)},
